@@ -585,18 +585,26 @@ fn constructors(j: &Jwk, via: &str, secrets: &[String], obs: &mut Obs) -> CheckR
     ));
   }
   let id = fixture!(did.to_url().join("#key-1"), "DIDUrl::join");
-  attempts.push((
-    "builder",
-    true,
-    catch(|| {
-      MethodBuilder::new(Object::new())
-        .id(id.clone())
-        .controller(did.clone())
-        .type_(MethodType::JSON_WEB_KEY_2020)
-        .data(MethodData::PublicKeyJwk(j.clone()))
-        .build()
-    }),
-  ));
+  // the builder under every kind of method type: the private-material guard must not depend on the type
+  for (route, type_) in [
+    ("builder", MethodType::JSON_WEB_KEY_2020),
+    ("builder:JsonWebKey", MethodType::custom("JsonWebKey")),
+    ("builder:Ed25519VerificationKey2018", MethodType::ED25519_VERIFICATION_KEY_2018),
+    ("builder:custom-type", MethodType::custom("VcheckKey2024")),
+  ] {
+    attempts.push((
+      route,
+      true,
+      catch(|| {
+        MethodBuilder::new(Object::new())
+          .id(id.clone())
+          .controller(did.clone())
+          .type_(type_)
+          .data(MethodData::PublicKeyJwk(j.clone()))
+          .build()
+      }),
+    ));
+  }
   let jwk_text = fixture!(j.to_json(), "Jwk::to_json");
   let did_jwk = format!("did:jwk:{}", b64url(jwk_text.as_bytes()));
   match catch(|| DIDJwk::parse(&did_jwk)) {
